@@ -24,7 +24,7 @@ def cases(seed, tier):
         rng = random.Random(sub_seed(seed, "c08x", i))
         out.append({"group": "extra", "kind": "switch", "seed": sub_seed(seed, "c08xs", i), "method": ["rk45", "rk45", "rk23", "rk45"][i % 4],
                     "holder": ["explicit", "nn", "em"][(i // 4) % 3], "decreasing": rng.random() < 0.4, "nt": rng.choice([2, 3, 5]),
-                    "where": rng.choice(["early", "middle", "late"]), "cot": rng.choice(["last", "all"]), "order": 2 if i % 5 == 4 else 1,
+                    "where": rng.choice(["early", "middle", "late"]), "cot": rng.choice(["last", "all", "cancel"]), "order": 2 if i % 5 == 4 else 1,
                     "cg": i % 2})
     nsh = 24 if tier == "quick" else 200
     for i in range(nsh):
@@ -134,6 +134,9 @@ def run_switch(desc):
     C = torch.randn(ref.shape, generator=tg, dtype=DT)
     if desc["cot"] == "last":
         C[:-1] = 0
+    elif desc["cot"] == "cancel":
+        C = torch.zeros_like(C)          # entries cancelling exactly at every time: L = sum_t (y_0(t) - y_1(t))
+        C[:, 0], C[:, 1] = 1.0, -1.0
     leaves = [y0, a, b]
     names = ["y0", "a", "b_used_only_before_tc"]
     n_before = ncall[0]
